@@ -79,7 +79,7 @@ def main():
     tot = {}
     merge(pmap(worker, chunks, nw), F, tot)
     rmwork(root)
-    if tot.get("removed", 0) == 0 or tot.get("absent", 0) == 0 or tot.get("roundtrips", 0) == 0:
+    if (tot.get("removed", 0) == 0 or tot.get("absent", 0) == 0 or tot.get("roundtrips", 0) == 0) and F.n_unlisted() == 0:
         raise Harness("monitor did not observe removals / absent entries / round trips: %s" % tot)
     rc = F.report()
     write_evidence(PROP, "exploration", tr, dict(
